@@ -711,7 +711,9 @@ pub fn gen_case(rng: &mut Rng, steps: usize) -> Case {
                 r.cfg.patterns = ref_config_patterns(&exts, &rp);
                 r.cfg.rules = rules.clone();
                 ops.push(Op::Config(fz, exts, rp, rules));
-                if rng.chance(3, 4) {
+                // a configuration change is always followed by a reindex (as the server does); until then the
+                // fuzzy-name map / module names legitimately reflect the old configuration
+                {
                     r.live.clear();
                     ops.push(Op::Clear);
                     for (g, p) in last_path.clone().iter().enumerate() {
